@@ -2,6 +2,7 @@
  * Clock values are injected through the dependency table and, with the time entry NULL, through libc time()
  * (interposed at link time). */
 #include "pv.h"
+#include <time.h>
 
 #define RANGE_END (PV_EPOCH + 1024 * PV_STEP)
 static char* g_out;
@@ -29,7 +30,13 @@ static void init(void) {
 static void one(uint64_t t, bool libc, const char* cls) {
     use_libc(libc);
     uint64_t before_inj = pv_w->total[PV_EV_TIME], before_libc = pv_wrap_count[PV_WRAP_TIME];
-    if (libc) { pv_wrap_time_scripted = 1; pv_wrap_time_value = (time_t)t; } else pv_w->time_value = t;
+    if (libc) {
+        /* the default clock is Unix time: the process time zone must not matter */
+        static const char* const TZS[] = { "UTC0", "EST5EDT", "PST8PDT", "JST-9", "NZST-12NZDT", "<-11>11" };
+        static unsigned tzi; const char* tz = TZS[tzi++ % 6];
+        setenv("TZ", tz, 1); tzset();
+        pv_wrap_time_scripted = 1; pv_wrap_time_value = (time_t)t;
+    } else pv_w->time_value = t;
     polyseed_data* s = NULL;
     int st = pv_api_create(0, &s);
     pv_wrap_time_scripted = 0;
